@@ -309,6 +309,48 @@ func expected(s spec) map[string]sample {
 	return out
 }
 
+// bump changes every numeric value of the store in place (same timestamps)
+// and returns the spec describing the new contents.
+func bump(st *metrics.Store, s spec) spec {
+	s2 := s
+	s2.Metrics = nil
+	for _, ms := range s.Metrics {
+		m2 := ms
+		m2.Sets = nil
+		m := st.FindMetricOrNil(ms.Name, ms.Prog)
+		for _, ls := range ms.Sets {
+			l2 := ls
+			l2.Obs = append([]float64{}, ls.Obs...)
+			if m != nil {
+				if d, err := m.GetDatum(ls.Labels...); err == nil {
+					ts := time.UnixMilli(ls.TS)
+					switch ms.typ {
+					case metrics.Int:
+						if l2.I < math.MaxInt64-7 {
+							l2.I += 7
+						} else {
+							l2.I -= 7
+						}
+						datum.SetInt(d, l2.I, ts)
+					case metrics.Float:
+						if !math.IsNaN(l2.f) && !math.IsInf(l2.f, 0) && math.Abs(l2.f) < 1e15 {
+							l2.f += 0.5
+							l2.F = fmt.Sprint(l2.f)
+						}
+						datum.SetFloat(d, l2.f, ts)
+					case metrics.Buckets:
+						l2.Obs = append(l2.Obs, 1.5)
+						datum.Observe(d, 1.5, ts)
+					}
+				}
+			}
+			m2.Sets = append(m2.Sets, l2)
+		}
+		s2.Metrics = append(s2.Metrics, m2)
+	}
+	return s2
+}
+
 func feq(a, b float64) bool {
 	return math.Float64bits(a) == math.Float64bits(b) || (math.IsNaN(a) && math.IsNaN(b)) || a == b
 }
@@ -449,6 +491,10 @@ func TestC13(t *testing.T) {
 				r.Violation("store-build", witness{Spec: s, What: err.Error()})
 				return
 			}
+			// scrape: once, and — with the same exporter — a second time after
+			// every value was changed while its timestamp stayed the same
+			var scrape func() ([]byte, string)
+			var stop func()
 			switch path {
 			case "handler":
 				empty := metrics.NewStore()
@@ -458,34 +504,57 @@ func TestC13(t *testing.T) {
 					return
 				}
 				reg := prometheus.NewRegistry()
+				regErr := ""
 				if err := reg.Register(e); err != nil {
-					what = "registering the collector failed: " + err.Error()
+					regErr = "registering the collector failed: " + err.Error()
 				}
 				// populate after registration, as the server does
 				_ = st.Range(func(m *metrics.Metric) error { return empty.Add(m) })
-				rec := httptest.NewRecorder()
-				promhttp.HandlerFor(reg, promhttp.HandlerOpts{}).ServeHTTP(rec, httptest.NewRequest("GET", "/metrics", nil))
-				text = rec.Body.Bytes()
-				if rec.Code != 200 && what == "" {
-					what = fmt.Sprintf("/metrics returned %d: %s", rec.Code, strings.TrimSpace(string(text)))
+				scrape = func() ([]byte, string) {
+					rec := httptest.NewRecorder()
+					promhttp.HandlerFor(reg, promhttp.HandlerOpts{}).ServeHTTP(rec, httptest.NewRequest("GET", "/metrics", nil))
+					if regErr != "" {
+						return rec.Body.Bytes(), regErr
+					}
+					if rec.Code != 200 {
+						return rec.Body.Bytes(), fmt.Sprintf("/metrics returned %d: %s", rec.Code, strings.TrimSpace(rec.Body.String()))
+					}
+					return rec.Body.Bytes(), ""
 				}
-				e.Stop()
+				stop = e.Stop
 			case "write":
 				e, err := exporter.New(context.Background(), st, opts...)
 				if err != nil {
 					t.Error(err)
 					return
 				}
-				var buf bytes.Buffer
-				if err := e.Write(&buf); err != nil {
-					what = "Exporter.Write failed: " + err.Error()
+				scrape = func() ([]byte, string) {
+					var buf bytes.Buffer
+					if err := e.Write(&buf); err != nil {
+						return buf.Bytes(), "Exporter.Write failed: " + err.Error()
+					}
+					return buf.Bytes(), ""
 				}
-				text = buf.Bytes()
-				e.Stop()
+				stop = e.Stop
 			}
+			text, what = scrape()
 			if what == "" {
 				what = check(text, want)
 			}
+			if what == "" {
+				s2 := bump(st, s)
+				text, what = scrape()
+				if what == "" {
+					what = check(text, expected(s2))
+				}
+				if what != "" {
+					what = "second scrape (values changed, timestamps unchanged): " + what
+				}
+				r.Count("second_scrapes_"+path, 1)
+				s = s2 // the store now holds s2; the next path rebuilds from it
+				want = expected(s2)
+			}
+			stop()
 			r.Eval(1)
 			if what != "" {
 				w := witness{Spec: s, Path: path, What: what, Text: string(text)}
